@@ -131,6 +131,9 @@ def _old_view(state):
         msg=getattr(state, "msg", None)))
 
 
+RUN_INFO = {}
+
+
 def run_histories(depth, roles=("SERVER", "CLIENT")):
     import inspect
     import bromelia.statemachine as SM
@@ -143,9 +146,18 @@ def run_histories(depth, roles=("SERVER", "CLIENT")):
     replay.install_loggers(API, some, keep_real="all")
     msgs = _mk_messages()
     failures, nseq, nticks = [], 0, 0
-    for role in roles:
-        for n in range(1, depth + 1):
+    import time as _time
+    # a wall-clock budget keeps this companion inside its task limit on a loaded machine: histories are enumerated
+    # shortest first, both roles per length; when the budget runs out the run stops and SAYS so (RUN_INFO)
+    t_end = _time.time() + float(os.environ.get("PYVC_TABLE_BUDGET_S", "1000" if depth >= 4 else "300"))
+    RUN_INFO["complete"] = True
+    for n in range(1, depth + 1):
+        for role in roles:
             for seq in itertools.product(EVENTS, repeat=n):
+                if _time.time() > t_end:
+                    RUN_INFO["complete"] = False
+                    RUN_INFO["stopped_at"] = {"length": n, "role": role, "histories": nseq}
+                    return failures, nseq, nticks
                 nseq += 1
                 a, psm = _node(role)
                 tr = a.transport
@@ -245,8 +257,10 @@ def tick_histories():
     depth = 4 if os.environ.get("VERIF_TIER") == "thorough" else 3
     failures, nseq, nticks = run_histories(depth)
     return [("every-history-is-a-chain-of-contract-respecting-ticks", not failures and nticks > 0,
-             {"depth": depth, "histories": nseq, "ticks": nticks, "failing": failures[:6]})]
+             {"depth": depth, "histories": nseq, "ticks": nticks, "enumeration_complete": RUN_INFO.get("complete"),
+              "stopped_at": RUN_INFO.get("stopped_at"), "failing": failures[:6]})]
 
 
 tick_histories.bounded = ("event sequences of length <= 3 (quick) / 4 (thorough) over 16 events, both roles, followed by two "
-                          "plain ticks; native run of the real state classes with run-time evaluation of the tick contracts")
+                          "plain ticks; native run of the real state classes with run-time evaluation of the tick contracts; "
+                          "shortest histories first, stopped (and reported as incomplete) after a wall-clock budget")
